@@ -1697,6 +1697,13 @@ XSLTEngineImpl::characters(const XObjectPtr&    xobject)
     assert(xobject.null() == false);
     assert(m_hasCDATASectionElements == m_stylesheetRoot->hasCDATASectionElements());
 
+    // An empty string creates no text node, so the
+    // pending element must stay open for attributes.
+    if (xobject->stringLength(*m_executionContext) == 0)
+    {
+        return;
+    }
+
     doFlushPending();
 
     if(generateCDATASection() == true)
